@@ -408,7 +408,7 @@ def check(ctx):
     need = {"signal:ok", "signal:NSP", "set:ok", "set:NSP", "is_running:True", "is_running:False",
             "eq:True", "eq:False", "new:ok", "new:NSP", "ppid:NSP", "signal:ValueError"}
     if need - allops:
-        raise core.Machinery("vacuity: result classes never exercised: %s" % sorted(need - allops))
+        core.vacuity("result classes never exercised: %s" % sorted(need - allops))
     # (3) deep random behaviours of a larger configuration
     cs = consts({1, 2, 3}, {1, 2, 3}, 6, 4, sigs=(9, 15, 19, 18, 1), setters=allsetters,
                 kinds=("proc", "popen", "oneshot"))
